@@ -9,11 +9,12 @@ PADS = [b'', b'', b' ', b'\t', b'  ', b'\xc2\xa0', b'\xe2\x80\x83', b'\xe3\x80\x
 VALUES = {
     b'Content-Length': [b'0', b'5', b'007', b'+5', b'4294967295', b'4294967296', b'-1', b'', b'+', b'5 5', b'1e3', b'\xd9\xa5',
                         b'99999999999999999999', b'+0', b'-0', b'0x1'],
-    b'Content-Type': [b'application/json', b'text/plain', b'text/html', b'', b'TEXT/PLAIN', b'text/plain; charset=utf-8'],
+    b'Content-Type': [b'application/json', b'text/plain', b'text/html', b'', b'TEXT/PLAIN', b'text/plain; charset=utf-8',
+                      b'text/plain\x00', b'\x01application/json', b'application/json\x1f', b'\x0btext/plain\x0c'],
     b'Expect': [b'100-continue', b'100-Continue', b'', b'200-ok', b'100-continue, x'],
     b'Transfer-Encoding': [b'chunked', b'identity', b'gzip', b'', b'Chunked', b'chunked, gzip'],
     b'Server': [b'x', b'', b'any thing'],
-    b'Accept': [b'text/plain', b'application/json', b'*/*', b'', b'text/html'],
+    b'Accept': [b'text/plain', b'application/json', b'*/*', b'', b'text/html', b'application/json\x00', b'\x1ftext/plain', b'\x0bapplication/json\x0c'],
     b'Accept-Encoding': [b'identity', b'gzip', b'gzip, deflate', b'identity;q=0', b'*;q=0', b'gzip, *;q=0', b'identity, *;q=0',
                          b'*;q=0, identity;q=1', b'', b' ', b'gzip,identity;q=0', b'identity;q=0.5', b'*;q=0,xidentityx', b',', b'a,,b',
                          # weights in every spelling: only the exact tokens identity;q=0 and *;q=0 are fatal
@@ -37,6 +38,11 @@ def gen_line(rng):
     if r < 0.8:
         n = rng.choice(OTHER_NAMES)
         v = rng.choice([b'v', b'', b'a:b', b'::', b'multi word', b'\xc3\xa9'])
+        if rng.random() < 0.3:
+            # characters sharing bytes with White_Space characters (never trimmed), 3- and 4-byte characters
+            import reqgen
+            n = rng.choice(reqgen.NEAR_WS + [b'']) + n + rng.choice(reqgen.NEAR_WS + [b''])
+            v = rng.choice(reqgen.NEAR_WS + [b'']) + v + rng.choice(reqgen.NEAR_WS + [b''])
         return rng.choice(PADS) + n + rng.choice(PADS) + b':' + rng.choice(PADS) + v + rng.choice(PADS)
     if r < 0.88:
         return rng.choice([b'NoColon', b'', b' ', b'Content-Length 5', b'\xe3\x80\x80'])
